@@ -115,14 +115,15 @@ def run_extractor(configs, outdir, repo=None):
 
 
 def ensure_facts(tier="quick", repo=None, quiet=False):
-    """Return (dir, info). Facts are cached by content hash of the tree."""
+    """Return (dir, info). Facts are cached by content hash of the tree; extraction of one tree is serialised by a per-tree lock
+    (different trees — scratch copies of the self-test — extract in parallel)."""
     repo = repo or REPO
     os.makedirs(os.path.join(CACHE, "facts"), exist_ok=True)
-    lockf = open(os.path.join(CACHE, "facts.lock"), "w")
+    h, nfiles = tree_hash(repo)
+    d = os.path.join(CACHE, "facts", h)
+    lockf = open(os.path.join(CACHE, f"facts.{h}.lock"), "w")
     fcntl.flock(lockf, fcntl.LOCK_EX)
     try:
-        h, nfiles = tree_hash(repo)
-        d = os.path.join(CACHE, "facts", h)
         configs = list(CONFIGS_QUICK) + (list(CONFIGS_THOROUGH) if tier == "thorough" else [])
         missing = [c for c in configs if not all(os.path.exists(os.path.join(d, facts_name(k, c[0]))) for k in c[2])]
         info = {"tree_hash": h, "files_hashed": nfiles, "extracted": False, "log": []}
@@ -139,11 +140,23 @@ def ensure_facts(tier="quick", repo=None, quiet=False):
             os.rename(tmp, d)
             info["extracted"] = True
             info["extract_s"] = round(time.time() - t0, 1)
-            # keep the cache small: drop all but the 12 most recent trees
-            ents = sorted((os.path.getmtime(os.path.join(CACHE, "facts", e)), e)
-                          for e in os.listdir(os.path.join(CACHE, "facts")) if not e.endswith(".partial"))
-            for _, e in ents[:-12]:
-                shutil.rmtree(os.path.join(CACHE, "facts", e), ignore_errors=True)
+            # keep the cache small: drop all but the 16 most recent trees (under the global lock)
+            glock = open(os.path.join(CACHE, "facts.lock"), "w")
+            fcntl.flock(glock, fcntl.LOCK_EX)
+            try:
+                ents = sorted((os.path.getmtime(os.path.join(CACHE, "facts", e)), e)
+                              for e in os.listdir(os.path.join(CACHE, "facts")) if not e.endswith(".partial"))
+                for _, e in ents[:-16]:
+                    shutil.rmtree(os.path.join(CACHE, "facts", e), ignore_errors=True)
+                    try:
+                        os.remove(os.path.join(CACHE, f"facts.{e}.lock"))
+                    except OSError:
+                        pass
+            finally:
+                fcntl.flock(glock, fcntl.LOCK_UN)
+                glock.close()
+        else:
+            os.utime(d, None)     # recently used: keep it away from eviction
         return d, info
     finally:
         fcntl.flock(lockf, fcntl.LOCK_UN)
